@@ -685,3 +685,51 @@ Proof.
     intros H. inversion H; subst. lia.
   - unfold err_res. destruct (e' <? 20); discriminate.
 Qed.
+
+(* ------------------------------------------------------------------ *)
+(* the deadline, stated directly: octets already read are not handed out  *)
+
+Definition late (e now : Z) (dt : option Z) : Prop :=
+  match dt with Some d => e - now <= d | None => True end.
+
+Lemma wait_for_late_timeout e now dt : late e now dt -> wait_for now (Some e) dt = Lib neTimeout.
+Proof.
+  unfold late, wait_for. intros H. destruct (e - now <=? 0); auto. destruct dt as [d|]; auto.
+  destruct (d <? e - now) eqn:D; auto. apply Z.ltb_lt in D. lia.
+Qed.
+
+(* the socket hands over chunks of k1, k2, ... octets - fewer in total than asked for - and then
+   would-blocks until the deadline: the result is Timeout, not the octets read so far *)
+Theorem deadline_is_timeout e : forall ks dt rest stream count s now,
+  Forall (fun k => (1 <= k)%nat) ks ->
+  (list_sum ks < count)%nat -> (list_sum ks <= length stream)%nat ->
+  late e now dt ->
+  net_read_loop (Some e) (map RAvail ks ++ RBlock dt :: rest) stream count s now = Lib neTimeout.
+Proof.
+  induction ks as [|k ks IH]; intros dt rest stream count s now Hk Hlt Hle Hl.
+  - change (list_sum []) with 0%nat in *. cbn [map app]. destruct count as [|c]; [lia|]. cbn [net_read_loop].
+    rewrite wait_for_late_timeout by auto. reflexivity.
+  - inversion Hk as [|? ? Hk1 Hks]; subst. change (list_sum (k :: ks)) with (k + list_sum ks)%nat in *.
+    destruct count as [|c]; [lia|]. cbn [map app net_read_loop].
+    rewrite Nat.min_l by lia.
+    assert (Hlen : length (firstn k stream) = k) by (rewrite firstn_length; lia).
+    destruct (firstn k stream) as [|x n'] eqn:En; [cbn in Hlen; lia|].
+    rewrite Hlen. apply IH.
+    + exact Hks.
+    + lia.
+    + rewrite skipn_length. lia.
+    + exact Hl.
+Qed.
+
+(* the same for writes: short sends of k1, k2, ... octets and then a would-block until the
+   deadline is Timeout *)
+Theorem write_deadline_is_timeout e : forall ks dt rest data sent now,
+  (list_sum ks < length data)%nat -> late e now dt ->
+  net_write_loop (Some e) (map WAccept ks ++ WBlock dt :: rest) data sent now = Lib neTimeout.
+Proof.
+  induction ks as [|k ks IH]; intros dt rest data sent now Hlt Hl.
+  - change (list_sum []) with 0%nat in *. cbn [map app]. destruct data as [|x data]; [cbn in Hlt; lia|].
+    cbn [net_write_loop]. rewrite wait_for_late_timeout by auto. reflexivity.
+  - change (list_sum (k :: ks)) with (k + list_sum ks)%nat in *. destruct data as [|x data]; [cbn in Hlt; lia|].
+    cbn [map app net_write_loop]. apply IH; auto. rewrite skipn_length. lia.
+Qed.
